@@ -30,8 +30,8 @@
 (***************************************************************************)
 EXTENDS Naturals, Sequences, FiniteSets, TLC
 
-CONSTANT Mutant   \* "none" (the code) | "one-directional" | "ignore-op-lists" :
-                  \* mutated models kept only to show that TLC finds a violation
+CONSTANT Mutant   \* "none" (the code) | "one-directional" | "ignore-op-lists" | "memoised" |
+                  \* "shared-scheme-buffer": mutated models kept only to show that TLC finds a violation
 
 Rng(s) == {s[i] : i \in DOMAIN s}
 ToLower(s) == [i \in DOMAIN s |-> IF s[i] \in 65..90  THEN s[i] + 32 ELSE s[i]]
@@ -51,6 +51,20 @@ Producers(reg) == (IF reg.json THEN {JSONMime} ELSE {}) \cup {ToLower(m) : m \in
 Operations(reg) == {OpKey(o.method, o.path) : o \in Rng(reg.ops)}
 Authenticators(reg) == Rng(reg.auths)
 DefaultMime(reg) == IF reg.json THEN <<JSONMime>> ELSE <<>>      \* DefaultConsumes / DefaultProduces ("" when cleared)
+
+(* One API value over time: every call that changes the registrations.       *)
+(* a = [act, arg, arg2]                                                      *)
+NewAPI == [json |-> TRUE, consumers |-> <<>>, producers |-> <<>>, ops |-> <<>>, auths |-> <<>>]
+NotJSON(m) == ToLower(m) # JSONMime
+Apply(reg, a) ==
+  CASE a.act = "RegisterConsumer"    -> [reg EXCEPT !.consumers = Append(@, a.arg)]
+    [] a.act = "RegisterProducer"    -> [reg EXCEPT !.producers = Append(@, a.arg)]
+    [] a.act = "RegisterOperation"   -> [reg EXCEPT !.ops = Append(@, [method |-> a.arg, path |-> a.arg2])]
+    [] a.act = "RegisterAuth"        -> [reg EXCEPT !.auths = Append(@, a.arg)]
+    [] a.act = "WithJSONDefaults"    -> [reg EXCEPT !.json = TRUE]
+    [] a.act = "WithoutJSONDefaults" -> [reg EXCEPT !.json = FALSE,      \* deletes the JSON entries, however they got there
+                                                     !.consumers = SelectSeq(@, NotJSON), !.producers = SelectSeq(@, NotJSON)]
+IsRegister(a) == a.act \in {"RegisterConsumer", "RegisterProducer", "RegisterOperation", "RegisterAuth"}
 
 (***************************************************************************)
 (* Part 2 - what the description requires (analysis.Spec).                   *)
@@ -157,19 +171,36 @@ CleanDesc(desc) == \A m \in Need("consumes", desc) \cup Need("produces", desc) :
 (* operation some produces (named deviation NoMediaTypeNoDefaults: a          *)
 (* description without media types served without JSON defaults cannot       *)
 (* produce anything; nothing could have been registered for it).             *)
-WellFormedReq(desc, o, ctype, accept) ==
+(* Credentials: alt names the alternative of the operation's security whose   *)
+(* schemes - exactly those - the request carries valid credentials for        *)
+(* (0 = no credentials: unsecured operation, or an anonymous alternative).    *)
+CredsOK(desc, o, alt) ==
+  LET alts == SecurityFor(desc, o) IN
+  IF alts = <<>> THEN alt = 0
+  ELSE alt \in DOMAIN alts \/ (alt = 0 /\ \E i \in DOMAIN alts : alts[i] = <<>>)
+
+WellFormedReq(desc, o, ctype, accept, alt) ==
   /\ ProducesFor(desc, o) # {}
   /\ accept = <<>> \/ accept \in ProducesFor(desc, o)
   /\ IF o.body THEN ctype \in ConsumesFor(desc, o) ELSE ctype = <<>>
+  /\ CredsOK(desc, o, alt)
 
-(* the faithful outcome classes of serving such a request when every         *)
-(* registered authenticator accepts and consumers/producers succeed          *)
-ServeClasses(desc, reg, o, ctype, accept) ==
+(* buildAuthenticators: per alternative the scheme names that Authenticate    *)
+(* walks and the authenticators it finds under them                           *)
+RouteSchemes(alts, j) == IF Mutant = "shared-scheme-buffer" THEN alts[Len(alts)] ELSE alts[j]
+
+(* the faithful outcome classes of serving such a request when consumers and  *)
+(* producers succeed and every authenticator accepts exactly the credentials  *)
+(* of its own scheme                                                          *)
+ServeClasses(desc, reg, o, ctype, accept, alt) ==
   IF ~HasHandler(reg, o) THEN {"no-handler"}
-  ELSE LET alts == SecurityFor(desc, o)
-           complete(alt) == Rng(alt) \subseteq Authenticators(reg) \cap DefinedAuths(desc)
-           authOK == alts = <<>> \/ \E i \in DOMAIN alts : complete(alts[i])
-       IN IF ~authOK THEN {"no-authenticator", "ok"}          \* (D14: a missing authenticator may be skipped)
+  ELSE LET alts  == SecurityFor(desc, o)
+           creds == IF alt = 0 THEN {} ELSE Rng(alts[alt])
+           have(j) == Rng(alts[j]) \cap Authenticators(reg) \cap DefinedAuths(desc)    \* this alternative's Authenticator map
+           admits(j) == \/ alts[j] = <<>>                                               \* anonymous
+                        \/ \A n \in Rng(RouteSchemes(alts, j)) : n \in have(j) /\ n \in creds
+           authOK == alts = <<>> \/ \E j \in DOMAIN alts : admits(j)
+       IN IF ~authOK THEN {"no-authenticator"}
           ELSE IF ctype # <<>> /\ ctype \notin RouteConsumers(desc, reg, o) THEN {"no-consumer"}
           ELSE LET formats == IF accept # <<>> THEN {accept} ELSE RouteProduces(desc, reg, o)   \* no Accept: the first offer
                    produced(f) == f \in RouteProducers(desc, reg, o) \/ (reg.json /\ JSONMime \in Producers(reg))
@@ -178,13 +209,14 @@ ServeClasses(desc, reg, o, ctype, accept) ==
 ServingHolds(desc, reg) ==
   (CleanDesc(desc) /\ Validate(desc, reg).ok) =>
      \A o \in Rng(desc.ops) :
-       \A ctype \in {<<>>} \cup ConsumesFor(desc, o), accept \in {<<>>} \cup ProducesFor(desc, o) :
-          WellFormedReq(desc, o, ctype, accept) => ServeClasses(desc, reg, o, ctype, accept) = {"ok"}
+       \A ctype \in {<<>>} \cup ConsumesFor(desc, o), accept \in {<<>>} \cup ProducesFor(desc, o),
+          alt \in 0..Len(SecurityFor(desc, o)) :
+          WellFormedReq(desc, o, ctype, accept, alt) => ServeClasses(desc, reg, o, ctype, accept, alt) = {"ok"}
 
-(* observation of one served request: e = [op : index, ctype, accept, class] *)
+(* observation of one served request: e = [op : index, ctype, accept, alt, class] *)
 ServeAllowed(desc, reg, e) ==
   (/\ CleanDesc(desc) /\ Coincide(desc, reg)
    /\ e.op \in DOMAIN desc.ops
-   /\ WellFormedReq(desc, desc.ops[e.op], e.ctype, e.accept))
+   /\ WellFormedReq(desc, desc.ops[e.op], e.ctype, e.accept, e.alt))
   => e.class \notin LackClasses
 =============================================================================
